@@ -418,6 +418,12 @@ fn returned_shape(fdef: &FuncShapeDef, pos: &Position) -> Shape {
                     .collect(),
                 flds.pos.clone(),
             )),
+            // A returned closure can return one of our parameters in turn.
+            Shape::Func(inner) => Shape::Func(FuncShapeDef {
+                args: inner.args.clone(),
+                arg_order: inner.arg_order.clone(),
+                ret: Box::new(close(inner.ret.as_ref(), fdef, pos)),
+            }),
             other => other.clone(),
         }
     }
